@@ -614,7 +614,7 @@ Qed.
 (* a complete concrete instance, computed: chart -> model writer (numeric tokens rendered by a concrete
    printer of integers) -> reference semantics *)
 Definition render_tok (tk : wtok) : text :=
-  match tk with WT s => s | WN q => show_int (Qfloor q) end.     (* only used on integral values below *)
+  match tk with WT s => s | WN q | WI q => show_int (Qfloor q) end.     (* only used on integral values below *)
 Definition render (ls : list wline) : list text := map (fun l => concat (map render_tok l)) ls.
 
 Definition example_meta : list mval :=
